@@ -116,11 +116,19 @@ class Evaluator(object):
         if isinstance(s, ast.Return):
             raise Abort(self.ev(s.value))
         if isinstance(s, ast.Assign):
-            v = self.ev(s.value)
+            hook = self.env.get("<assign-hook>")
+            v = hook(s) if hook is not None else None
+            if v is None:
+                v = self.ev(s.value)
             for t in s.targets:
                 self.bind(t, v)
             return
         if isinstance(s, ast.AugAssign) and isinstance(s.target, ast.Name):
+            hook = self.env.get("<assign-hook>")
+            v = hook(s) if hook is not None else None
+            if v is not None:
+                self.env[s.target.id] = v
+                return
             fake = ast.BinOp(left=ast.Name(id=s.target.id, ctx=ast.Load()),
                              op=s.op, right=s.value)
             self.env[s.target.id] = self.ev(fake)
@@ -190,7 +198,7 @@ class Evaluator(object):
             if e.id in self.env:
                 return self.env[e.id]
             raise OrdError("unbound name %s" % e.id)
-        if isinstance(e, ast.Attribute):
+        if isinstance(e, (ast.Attribute, ast.Subscript)):
             key = unparse(e)
             if key in self.env:
                 return self.env[key]
